@@ -16,9 +16,13 @@ import (
 type goFunc struct {
 	name string
 	f    func(tid uint64, args []interface{}) (interface{}, error)
+	fis  func(is map[string]interface{}, tid uint64, args []interface{}) (interface{}, error) // variant that sees the instance state (monitor)
 }
 
 func (g *goFunc) Run(instanceID string, vs parser.Scope, is map[string]interface{}, tid uint64, args []interface{}) (interface{}, error) {
+	if g.fis != nil {
+		return g.fis(is, tid, args)
+	}
 	return g.f(tid, args)
 }
 
